@@ -85,6 +85,11 @@ def run_seq(chk, spec):
 			f"infer/model-mismatch/exp={fmt(exp)}/got={fmt(got)}/{first_none}",
 			f"infer_dtype({values!r}) = {fmt(got)}, model says {fmt(exp)}")
 		return
+	# whatever was inferred must cover the values it was inferred from
+	for v in values:
+		if v is not None and got is not None and not M.belongs(v, got[0]):
+			chk.fail("the inferred kind covers every value it was inferred from", "infer/value-does-not-belong", f"infer_dtype({values!r}) = {fmt(got)} but {v!r} is a {type(v).__name__}")
+			return
 	# order independence against the canonical (sorted by class name) ordering, for every sequence
 	canon = sorted(values, key=lambda v: (cls_name(v), repr(v)))
 	out2 = call(infer_dtype, canon)
@@ -195,6 +200,71 @@ def run_allnone(chk, spec):
 			chk.fail("None adds nullability", "infer/all-none-not-nullable", f"all-None sequence inferred {fmt(s)}")
 
 
+_DYN = {"int": (int, 7), "str": (str, "x"), "float": (float, 2.5), "date": (date, (2020, 1, 2)), "tuple": (tuple, ((1, 2),)), "bytes": (bytes, b"q"), "object": (object, None)}
+
+
+def dyn_instance(base):
+	"""an instance of a class created at run time: every such class has the same module and qualified name"""
+	b, arg = _DYN[base]
+
+	class Code(b):
+		pass
+	if base == "date":
+		return Code(*arg)
+	if base == "object":
+		return Code()
+	if base == "tuple":
+		return Code(*arg)
+	return Code(arg)
+
+
+def run_dynclass(chk, spec):
+	"""classes created at run time that share one qualified name but derive from different built-ins: the inferred kind must cover each one's
+	instances whatever was inferred earlier in this process"""
+	chk.judged("seq-subclass", ("dynclass", tuple(spec["bases"])))
+	for base in spec["bases"]:
+		x = dyn_instance(base)
+		for values in ([x], [x, x], [None, x], [x, _DYN[base][1] if base in ("int", "str", "float", "bytes") else x]):
+			o = call(infer_dtype, list(values))
+			if not o.ok:
+				chk.fail("inference does not raise", f"infer/raises/{type(o.exc).__name__}", f"infer_dtype([instance of a run-time subclass of {base}]) raised {o!r}")
+				return
+			got = sch(o.value)
+			for v in values:
+				if v is not None and got is not None and not M.belongs(v, got[0]):
+					chk.fail("the inferred kind covers every value it was inferred from", "infer/value-does-not-belong/run-time-class",
+						f"after inferring run-time classes derived from {spec['bases']!r} in this order: an instance of the subclass of {base} ({v!r}) was inferred {fmt(got)}")
+					return
+			ov = call(Vector, list(values))
+			if ov.ok:
+				chk.observe(ov.value, "Vector(run-time-class)")
+				msg = M.truthful(list(ov.value._underlying), ov.value.schema())
+				if msg:
+					chk.fail("the inferred kind covers every value it was inferred from", "infer/value-does-not-belong/run-time-class", f"Vector of run-time subclass of {base} after {spec['bases']!r}: {msg}")
+					return
+
+
+def run_reject(chk, spec):
+	"""a rejected assignment stores nothing, so the dtype must still be the one inferred from the (unchanged) values"""
+	values = list(spec["values"])
+	o = call(Vector, list(values))
+	if not o.ok:
+		return
+	v = o.value
+	s0 = sch(v.schema())
+	w = call(v.__setitem__, spec["key"] if not isinstance(spec["key"], tuple) else slice(*spec["key"]), list(spec["new"]))
+	chk.judged("result-typing", ("reject", tuple(sorted({cls_name(x) for x in values})), tuple(cls_name(x) for x in spec["new"]), w.ok))
+	if w.ok:
+		chk.counters["reject-was-accepted"] += 1
+		return
+	if list(v._underlying) != values and not M.same_list(list(v._underlying), values):
+		return      # (a partially applied write is C08's subject)
+	s1 = sch(v.schema())
+	if s1 != s0:
+		chk.fail("the dtype depends only on the values held: a rejected assignment stores nothing and must not change it", "infer/dtype-changed-by-rejected-assignment",
+			f"Vector({values!r}) was {fmt(s0)}; v[{spec['key']!r}] = {spec['new']!r} raised {w!r} and left the same values typed {fmt(s1)}")
+
+
 def run_result(chk, spec):
 	"""results of arithmetic / joins / aggregates / CSV are typed by the rule applied to their own values"""
 	res = common.build_result(chk, spec)
@@ -216,7 +286,7 @@ def run_result(chk, spec):
 				f"{spec!r}: column {label} holds {short(vals, 200)} typed {fmt(got)}, rule says {fmt(exp)}")
 
 
-RUNNERS = {"seq": run_seq, "vector": run_vector, "step": run_step, "commute": run_commute, "allnone": run_allnone, "result": run_result}
+RUNNERS = {"reject": run_reject, "dynclass": run_dynclass, "seq": run_seq, "vector": run_vector, "step": run_step, "commute": run_commute, "allnone": run_allnone, "result": run_result}
 
 
 # ------------------------------------------------------------------ driver
@@ -261,6 +331,16 @@ def run(chk):
 	for n in (2, 3):
 		for seq in itertools.product(EXTRA_LETTERS + [None, True, 1, "a", 2.5], repeat=n):
 			chk.case("seq", {"values": list(seq), "stratum": "seq-subclass"}, "seq-subclass")
+	for bases in itertools.permutations(list(_DYN), 3):
+		chk.case("dynclass", {"bases": list(bases)}, "seq-dynclass")
+	bad = {"int": ["zz", b"q"], "float": ["zz", [1]], "str": [5, 2.5], "bool": ["zz"], "date": ["zz", 5]}
+	okv = {"int": [1, 2, 3], "float": [1.5, 2.5, 0.25], "str": ["a", "b", "c"], "bool": [True, False, True], "date": [date(2020, 1, 2), date(2021, 3, 4), date(1999, 1, 1)]}
+	widerv = {"int": 2.5, "float": 1j, "str": None, "bool": 2, "date": datetime(2020, 1, 1, 5)}
+	for kind in bad:
+		for b in bad[kind]:
+			for first in (None, widerv[kind], okv[kind][0]):
+				for key in ((0, 2), [0, 1], [1, 2]):
+					chk.case("reject", {"values": okv[kind], "key": key, "new": [first, b]}, "reject")
 	states = reachable_states()
 	chk.counters["automaton_states"] = len(states)
 	allv = LETTERS + EXTRA_LETTERS
@@ -301,3 +381,5 @@ def run(chk):
 	nres = 600 if chk.quick() else 4000
 	for _ in range(nres):
 		chk.case("result", common.gen_result_spec(rng), "result-typing")
+	for _ in range(25 if chk.quick() else 200):
+		chk.case("result", common.gen_csv_long(rng), "result-typing-long-csv")
